@@ -123,12 +123,15 @@ def preXchg (ss : SS) (e : Ent) (add rem : List Comp) (rels : Rels) : Prop :=
   ∃ en, find ss.ents e = some en ∧ XchgOK ss en add rem rels
 
 /-- what is a step: as for `add` (`RelRefine.guard`) — a handle the client was given, registered
-    component IDs to add, a well-formed relation list (`RelsWF`) whose targets are the zero entity
-    or handles the client was given, and through `Unsafe` (which validates targets only after the
-    archetype was created) only valid targets -/
+    component IDs to add, a relation list that names no relation component twice and every
+    relation component among `add` (`RelsStep`: what `createTable` would notice only after the
+    archetype was created), whose targets are the zero entity or handles the client was given.
+    Since the repair of the `Unsafe` API a dead target, a relation on a non-relation component
+    and a relation on a component that is not added are refused before anything is touched
+    through `Unsafe.Exchange` as through `ExchangeN.Exchange`: such calls are steps. -/
 def guardXchg (s : St) (p : Path) (e : Ent) (add : List Comp) (rels : Rels) : Bool :=
   decide (e ∈ s.issued) && (add.all fun c => decide (c < s.ss.zst.length)) &&
-    decide (RelsWF s.ss.isRel add rels) && relsExpr s p rels
+    decide (RelsStep s.ss.isRel p add rels) && tgtsExpr s rels
 
 /-- the operations: those of `Ark.RelRefine2` and `Exchange` -/
 inductive Op3
@@ -208,13 +211,30 @@ theorem step3_xchg (run : ProbeRunner) {s : St} {fl : List Nat} (H : HInv2 s fl)
     have : step3 run s (.xchg p e add vals rem rels) = s := by simp only [step3, if_neg hg]
     exact ⟨⟨fl, by rw [this]; exact H⟩, by rw [this]; exact Grows.refl s,
       fun h => absurd h hg, fun h => absurd h hg⟩
-  have hg' : ((e ∈ s.issued ∧ ∀ c ∈ add, c < s.ss.zst.length) ∧ RelsWF s.ss.isRel add rels) ∧
-      relsExpr s p rels = true := by
+  have hg' : ((e ∈ s.issued ∧ ∀ c ∈ add, c < s.ss.zst.length) ∧ RelsStep s.ss.isRel p add rels) ∧
+      tgtsExpr s rels = true := by
     simpa only [guardXchg, Bool.and_eq_true, List.all_eq_true, decide_eq_true_eq] using hg
-  obtain ⟨⟨⟨hi, hreg⟩, hwf⟩, hx⟩ := hg'
+  obtain ⟨⟨⟨hi, hreg⟩, hst⟩, hx⟩ := hg'
   have hreg' : ∀ (c : Comp), c ∈ add → c < s.w.kinds.length := by rw [← HB.zlen]; exact hreg
   have hb256 : ∀ (c : Comp), c ∈ add → c < 256 := fun c hc => HB.reg256 (hreg' c hc)
-  obtain ⟨hrnd, hrin, hrall⟩ := hwf
+  obtain ⟨hrnd, hrmap, hrall⟩ := hst
+  -- a relation on a non-relation component / on a component that is not added: refused by the
+  -- pre-validation (after the `Alive` check of `Unsafe.Exchange`), the machine state unchanged
+  by_cases hrin : ∀ r ∈ rels, r.comp ∈ add ∧ s.ss.isRel.getD r.comp false = true
+  case neg =>
+    obtain ⟨r, hr, hb⟩ := bad_of_not_wf HB hrmap hrin
+    obtain ⟨k, hop⟩ := opExchange_rel_badRel run p e add vals rem rels s.w HB.unlocked
+      ⟨r, hr, by
+        rcases hb with hb | ⟨hp, hb⟩
+        · exact Or.inr (Or.inl hb)
+        · exact Or.inr (Or.inr ⟨hp, by rw [Mask.get_ofList]; simp [hb]⟩)⟩
+    have hnp : ¬ preXchg s.ss e add rem rels := by
+      rintro ⟨en, _, hp⟩
+      exact hrin hp.2.1.2.1
+    have : step3 run s (.xchg p e add vals rem rels) = s := by
+      simp only [step3, if_pos hg, hop, Res.state, specXchg_of_not_pre _ _ _ _ _ _ hnp]
+    exact ⟨⟨fl, by rw [this]; exact H⟩, by rw [this]; exact Grows.refl s,
+      fun _ _ => ⟨k, hop⟩, fun _ hp => absurd hp hnp⟩
   have hin : ∀ (r : RelID), r ∈ rels → r.comp ∈ add := fun r hr => (hrin r hr).1
   have hrc : ∀ (r : RelID), r ∈ rels → s.w.isRelComp r.comp = true :=
     fun r hr => by rw [← HB.rget]; exact (hrin r hr).2
@@ -259,8 +279,8 @@ theorem step3_xchg (run : ProbeRunner) {s : St} {fl : List Nat} (H : HInv2 s fl)
       exact hrejected hop (hnotpre fun hp => hv1 hp.1)
     by_cases hv : TargetsValid s.ss.ents rels
     case neg =>
-      obtain ⟨hpp, r, hr, hz, hd⟩ := dead_of_invalid HB hx hv
-      obtain ⟨k, hop⟩ := opExchange_rel_badRel run p hpp e add vals rem rels s.w HB.unlocked
+      obtain ⟨r, hr, hz, hd⟩ := dead_of_invalid HB hx hv
+      obtain ⟨k, hop⟩ := opExchange_rel_badRel run p e add vals rem rels s.w HB.unlocked
         ⟨r, hr, Or.inl ⟨hz, hd⟩⟩
       exact hrejected hop (hnotpre fun hp => hv hp.2.2)
     obtain ⟨hne, hremnd, hremhas, haddnd, hall⟩ := hv1
@@ -283,7 +303,7 @@ theorem step3_xchg (run : ProbeRunner) {s : St} {fl : List Nat} (H : HInv2 s fl)
         relsAll := fun c hc hr => hrall c hc (by rw [HB.rget]; exact hr)
         targets := HB.targets_alive hv }
     obtain ⟨w', hop, post, qk, ck⟩ := opExchange_rel_keep run p HB.tinv HB.unlocked HB.noObs h2 hnf
-      ha (Pool.lt_of_slot hsl) hpw vals (HB.tgts_in (relsExpr_iff.mp hx).1) hfew hent
+      ha (Pool.lt_of_slot hsl) hpw vals (HB.tgts_in hx) hfew hent
     have hstep : step3 run s (.xchg p e add vals rem rels) =
         ⟨w', s.issued, ⟨upd s.ss.ents e (xchgEntry s.ss.zst add vals rem rels),
           s.ss.zst, s.ss.isRel⟩⟩ := by
